@@ -189,7 +189,10 @@ func compareDialect(rep *vh.Report, b *xmlBatch, top string, g *genOutcome, pr *
 }
 
 func runBatch(rep *vh.Report, r *vh.RNG, name string, nDialects int, st *c18stats, enumRes *probe.EnumResult, compare bool) {
-	b := genBatch(r, name, nDialects)
+	runBatchOf(rep, genBatch(r, name, nDialects), name, st, enumRes, compare)
+}
+
+func runBatchOf(rep *vh.Report, b *xmlBatch, name string, st *c18stats, enumRes *probe.EnumResult, compare bool) {
 	base, err := scratchDir(name)
 	if err != nil {
 		rep.HarnessError(err.Error())
@@ -304,10 +307,10 @@ func TestC18(t *testing.T) {
 		"on the six carrier types, <extensions/> at every position, snake / camel / capitalised / digit field names, message names with digits and _<digit> groups, ids over 0..2^24-1, enum values " +
 		"decimal / 0x / 0b / a**b up to 2^63, dense and sparse bitmasks, enums merged across includes; include chains, diamonds, shared includes, version overrides) -> the real cmd/dialect-import " +
 		"binary (built from the tree) -> generated packages compiled into a generated probe program -> per message: id, field count, CRC_EXTRA, v1 and v2 payloads of 5 sample values compared with " +
-		"the spec derivation from the XML; enum constants; dialect version; second generation byte-identical; negative definitions must not initialize. " +
+		"the spec derivation from the XML; enum constants; dialect version; second generation byte-identical; negative definitions must not initialize; the same for trees fetched by URL from a loopback web server (nested relative includes in sub-directories). " +
 		"programs = top-level dialects generated; disagreements_checked = individual comparisons; distinct = (dialect, message)")
 	rep.Assume("reference derivation harness/ref.LayoutFromXML (independent of pkg/conversion and of pkg/message)")
-	rep.Assume("link mode and remote (URL) definitions are not exercised (generated imports would point into the repository / need a network)")
+	rep.Assume("link mode is not exercised (generated imports would point into the repository); remote (URL) definitions are fetched from a web server on the loopback interface")
 	seed := vh.Seed()
 	st := &c18stats{}
 	enumRes := &probe.EnumResult{}
@@ -315,6 +318,12 @@ func TestC18(t *testing.T) {
 	perBatch := vh.Pick(22, 40)
 	for bi := 0; bi < nBatches; bi++ {
 		runBatch(rep, vh.Sub(seed, fmt.Sprintf("c18-batch-%d", bi)), fmt.Sprintf("vf%d", bi), perBatch, st, enumRes, true)
+	}
+	// definitions fetched by URL: a published tree with sub-directories whose files have relative includes of their own
+	for ri := 0; ri < vh.Pick(1, 6); ri++ {
+		rb := genRemoteBatch(vh.Sub(seed, fmt.Sprintf("c18-remote-%d", ri)), fmt.Sprintf("vr%d", ri))
+		runBatchOf(rep, rb, fmt.Sprintf("vr%d", ri), st, enumRes, true)
+		rep.Count("remote_dialects", len(rb.Tops))
 	}
 	// negative definitions
 	neg := negativeCases()
